@@ -6,6 +6,7 @@ import Luqum.Model.Check
 import Luqum.Model.Pretty
 import Luqum.Model.Es
 import Luqum.Model.Schema
+import Luqum.Model.Threads
 
 namespace Luqum.Ops
 open Lean (Json)
@@ -234,6 +235,20 @@ def handle (j : Json) : Except String Json := do
         | .error e => Json.mkObj [("err", esErrJ e)]
       return Json.mkObj (base ++ [("build", res)])
     | .error _ => return Json.mkObj base
+  | "threads" =>
+    let inputsJ ← getArr j "inputs"
+    let inputs ← inputsJ.mapM (fun x => x.getStr?)
+    let schedJ ← getArr j "schedule"
+    let sched ← schedJ.mapM (fun x => x.getNat?)
+    let w := (World.init (inputs.map String.toList)).run tables sched
+    -- let every thread finish (round robin) and report its outcome
+    let done := w.threads.map fun p => (piter tables (parseFuel p.toks.length + 8) p).result
+    let outs := done.map fun r => match r with
+      | some (.ok (.item t)) => Json.mkObj [("ok", treeJ t)]
+      | some (.ok (.tok ..)) => Json.mkObj [("driver_error", Json.str "token result")]
+      | some (.error e) => let (cls, msg) := e.render; Json.mkObj [("err", Json.arr #[Json.str cls, Json.str msg])]
+      | none => Json.mkObj [("driver_error", Json.str "unfinished")]
+    return Json.mkObj [("results", Json.arr outs.toArray)]
   | "specs" =>
     let cfg ← getCfg (← j.getObjVal? "cfg")
     let strs (xs : List Str) : Json := Json.arr ((xs.map String.ofList).toArray.qsort (· < ·) |>.map Json.str)
